@@ -6,8 +6,35 @@ import (
 )
 
 // apiParams are the variables every API template may refer to.
-const apiParams = "s string, b []byte, n int, err error, m map[string]int, xs []int, ch chan int, mu *sync.Mutex, w http.ResponseWriter, r *http.Request, ctx context.Context, t time.Time, f float64, v any, d time.Duration, p *int, u uint8, ss []string, wg *sync.WaitGroup, rd io.Reader"
-const apiZeroArgs = `"", nil, 0, nil, nil, nil, nil, nil, nil, nil, nil, time.Time{}, 0, nil, 0, nil, 0, nil, nil, nil`
+const apiParamsHeavy = "s string, b []byte, n int, err error, m map[string]int, xs []int, ch chan int, mu *sync.Mutex, w http.ResponseWriter, r *http.Request, ctx context.Context, t time.Time, f float64, v any, d time.Duration, p *int, u uint8, ss []string, wg *sync.WaitGroup, rd io.Reader"
+const apiParamsLight = "s string, b []byte, n int, err error, m map[string]int, xs []int, ch chan int, mu *sync.Mutex, w io.Writer, ctx context.Context, t time.Time, f float64, v any, d time.Duration, p *int, u uint8, ss []string, wg *sync.WaitGroup, rd io.Reader"
+const apiZeroArgsHeavy = `"", nil, 0, nil, nil, nil, nil, nil, nil, nil, nil, time.Time{}, 0, nil, 0, nil, 0, nil, nil, nil`
+const apiZeroArgsLight = `"", nil, 0, nil, nil, nil, nil, nil, nil, nil, time.Time{}, 0, nil, 0, nil, 0, nil, nil, nil`
+
+// Packages whose import makes building and linting a module much slower
+// (large dependency graphs); only a quarter of the packages use them.
+var heavyRe = regexp.MustCompile(`\b(http|tls|x509|template|xml|exec|net|url|elliptic|big|flag)\.|\br\.Header|w\.WriteHeader`)
+
+var (
+	lightTemplates []int
+	allTemplates   []int
+)
+
+func init() {
+	for i, t := range apiTemplates {
+		allTemplates = append(allTemplates, i)
+		if !heavyRe.MatchString(t) {
+			lightTemplates = append(lightTemplates, i)
+		}
+	}
+}
+
+func (g *gen) apiParams() (params, zero string) {
+	if g.heavy {
+		return apiParamsHeavy, apiZeroArgsHeavy
+	}
+	return apiParamsLight, apiZeroArgsLight
+}
 
 // apiTemplates are the call shapes that individual checks pattern-match on.
 // A hole {K:a|b|c} is an operand of kind K (S string, I int, D duration, B
@@ -120,7 +147,7 @@ var apiTemplates = []string{
 	"wg.Add(1)\n\tgo func() { wg.Done() }()",
 	"var pool sync.Pool\n\tpool.Put({N:xs|b|p|&xs|s|n|v|[4]byte{}|struct{}{}|ss|m|ch|mu|*new([]byte)})\n\t_ = pool.Get()",
 	"var once sync.Once\n\tonce.Do(func() { once.Do(func() {}) })",
-	"var cnt int64\n\tcnt = atomic.AddInt64(&cnt, {I:1|n})\n\t_ = cnt",
+	"var cnt int64\n\tcnt = atomic.AddInt64(&cnt, {N:1|int64(n)})\n\t_ = cnt",
 	"var cnt uint32\n\tatomic.StoreUint32(&cnt, atomic.LoadUint32(&cnt)+1)",
 	"var st struct {\n\t\ta bool\n\t\tb int64\n\t}\n\tatomic.AddInt64(&st.b, 1)",
 	"var av atomic.Value\n\tav.Store({N:nil|s|n|v})\n\t_ = av.Load()",
@@ -290,7 +317,7 @@ var apiTemplates = []string{
 	"_ = len(xs) {O:<|>=|==|<=|>|!=} {I:0|-1}",
 	"_ = {N:u|uint(n)|uint64(u)|uintptr(n)|byte(n)|len(xs)|cap(xs)|len(s)} {O:<|>=|<=|>} 0",
 	"_ = {N:u|int8(n)|uint16(u)|int32(n)} {O:>>|<<} {I:8|7|16|32|64|0}",
-	"_ = {N:n|u|int64(n)} {O:&|\\||^|&^} {I:0}",
+	"_ = {N:n|u|int64(n)} {O:&|\\||^|&^} {N:0|0x0|(0)}",
 	"_ = n {O:&|\\||^|-|/|%|==|!=|<} n",
 	"_ = {N:n|xs[0]|len(s)|m[s]|*p} {O:==|!=|-|/|<=} {N:n|xs[0]|len(s)|m[s]|*p}",
 	"_ = ({L:n > 0|true} {O:&&|\\|\\|} {L:n > 0|false|true})",
@@ -517,7 +544,7 @@ func (g *gen) exo(kind byte, e string, pre *[]string) string {
 			return e
 		}
 		g.feat("exo_method_value")
-		return "exoBox[" + typ + "]{" + e + "}.Get()"
+		return "(exoBox[" + typ + "]{" + e + "}).Get()"
 	case 15:
 		if untypedNil {
 			return e
@@ -615,7 +642,11 @@ func splitTop(s string) []string {
 
 // apiLines draws one template and returns its statements.
 func (g *gen) apiLines() string {
-	i := g.intn(0, len(apiTemplates)-1, "api")
+	set := lightTemplates
+	if g.heavy {
+		set = allTemplates
+	}
+	i := set[g.intn(0, len(set)-1, "api")]
 	var pre []string
 	s := g.fill(apiTemplates[i], &pre)
 	g.feat("api_" + apiName(apiTemplates[i]))
@@ -638,7 +669,8 @@ func apiName(t string) string {
 // apiStmt is an API statement for general bodies.
 func (g *gen) apiStmt(d int) string {
 	g.needExoHelpers()
-	return "func(" + apiParams + ") {\n\t" + g.apiLines() + "\n\t}(" + apiZeroArgs + ")"
+	params, zero := g.apiParams()
+	return "func(" + params + ") {\n\t" + g.apiLines() + "\n\t}(" + zero + ")"
 }
 
 // apiFunc is family g: a function whose body is a sequence of API call shapes.
@@ -651,6 +683,7 @@ func (g *gen) apiFunc() {
 		for i, n := 0, g.intn(1, 6, "napi"); i < n; i++ {
 			blocks = append(blocks, g.apiLines())
 		}
-		return g.doc(name) + "func " + name + "(" + apiParams + ") {\n\t" + strings.Join(blocks, "\n\t") + "\n}"
+		params, _ := g.apiParams()
+		return g.doc(name) + "func " + name + "(" + params + ") {\n\t" + strings.Join(blocks, "\n\t") + "\n}"
 	})
 }
